@@ -8,6 +8,8 @@ use std::collections::BTreeMap;
 use std::rc::Rc;
 
 pub const PAGE: u64 = 4096;
+/// the per-operation call log keeps at most this many records (a legitimate whole-FAT scan can be far longer)
+pub const CALL_LOG_CAP: usize = 4_000_000;
 type Page = [u8; PAGE as usize];
 
 #[derive(Clone, Debug, PartialEq, Eq)]
@@ -48,6 +50,8 @@ pub struct Store {
     pages: BTreeMap<u64, Rc<Page>>,
     pub len: u64,
     pub canary_from: u64,
+    /// "dirty medium": bytes never written read as a non-zero pattern everywhere (re-format over old data)
+    pub dirty_medium: bool,
 }
 
 #[inline]
@@ -57,10 +61,10 @@ pub fn canary(off: u64) -> u8 {
 
 impl Store {
     pub fn new(len: u64) -> Self {
-        Store { pages: BTreeMap::new(), len, canary_from: u64::MAX }
+        Store { pages: BTreeMap::new(), len, canary_from: u64::MAX, dirty_medium: false }
     }
     pub fn with_canary(len: u64, canary_from: u64) -> Self {
-        Store { pages: BTreeMap::new(), len, canary_from }
+        Store { pages: BTreeMap::new(), len, canary_from, dirty_medium: false }
     }
     pub fn from_bytes(data: &[u8]) -> Self {
         let mut s = Store::new(data.len() as u64);
@@ -73,10 +77,10 @@ impl Store {
     fn default_page(&self, pno: u64) -> Page {
         let mut p = [0u8; PAGE as usize];
         let base = pno * PAGE;
-        if base + PAGE > self.canary_from {
+        if base + PAGE > self.canary_from || self.dirty_medium {
             for (i, b) in p.iter_mut().enumerate() {
                 let off = base + i as u64;
-                if off >= self.canary_from {
+                if off >= self.canary_from || self.dirty_medium {
                     *b = canary(off);
                 }
             }
@@ -93,10 +97,10 @@ impl Store {
             match self.pages.get(&pno) {
                 Some(p) => buf[done..done + n].copy_from_slice(&p[po..po + n]),
                 None => {
-                    if o + n as u64 > self.canary_from {
+                    if o + n as u64 > self.canary_from || self.dirty_medium {
                         for i in 0..n {
                             let a = o + i as u64;
-                            buf[done + i] = if a >= self.canary_from { canary(a) } else { 0 };
+                            buf[done + i] = if a >= self.canary_from || self.dirty_medium { canary(a) } else { 0 };
                         }
                     } else {
                         buf[done..done + n].fill(0);
@@ -116,7 +120,7 @@ impl Store {
             let chunk = &data[done..done + n];
             if !self.pages.contains_key(&pno) {
                 // zero-write elision keeps multi-TiB volumes at a few resident pages
-                let in_canary = o + n as u64 > self.canary_from;
+                let in_canary = o + n as u64 > self.canary_from || self.dirty_medium;
                 if !in_canary && chunk.iter().all(|b| *b == 0) {
                     done += n;
                     continue;
@@ -215,7 +219,7 @@ impl Store {
     }
     /// are the byte ranges [a, a+len) and [b, b+len) identical?
     pub fn eq_ranges(&self, a: u64, b: u64, len: u64) -> bool {
-        if self.resident_in(a, a + len).is_empty() && self.resident_in(b, b + len).is_empty() && a + len <= self.canary_from && b + len <= self.canary_from {
+        if !self.dirty_medium && self.resident_in(a, a + len).is_empty() && self.resident_in(b, b + len).is_empty() && a + len <= self.canary_from && b + len <= self.canary_from {
             return true;
         }
         let mut o = 0u64;
@@ -447,7 +451,7 @@ impl DiskState {
             self.next_err_id += 1;
             self.fired.hard += 1;
             self.injected.push(Injected { id, k: self.op_calls, kind, in_drop });
-            if self.log_mode != LogMode::Off {
+            if self.log_mode != LogMode::Off && self.calls.len() < CALL_LOG_CAP {
                 self.calls.push(CallRec { kind, off, len: len as u32, ok: false, in_drop });
             }
             return Err(SimIoError { kind: ErrKind::Hard, id });
@@ -498,7 +502,7 @@ impl Read for SimDisk {
             }
         }
         st.store.read_at(self.pos, &mut buf[..n]);
-        if st.log_mode != LogMode::Off {
+        if st.log_mode != LogMode::Off && st.calls.len() < CALL_LOG_CAP {
             st.calls.push(CallRec { kind: CallKind::Read, off: self.pos, len: n as u32, ok: true, in_drop });
         }
         self.pos += n as u64;
@@ -574,7 +578,7 @@ impl Seek for SimDisk {
         let in_drop = st.enter(CallKind::Seek, target.unwrap_or(u64::MAX), 0)?;
         match target {
             Some(t) => {
-                if st.log_mode != LogMode::Off {
+                if st.log_mode != LogMode::Off && st.calls.len() < CALL_LOG_CAP {
                     st.calls.push(CallRec { kind: CallKind::Seek, off: t, len: 0, ok: true, in_drop });
                 }
                 self.pos = t;
